@@ -141,6 +141,17 @@ func init() {
 				cse.TimeoutMS = 120000
 				cs = append(cs, cse)
 			}
+			// a tick that is busy reporting a huge discarded backlog must not keep idle workers from its own requests
+			nbr := 1
+			if tier == "thorough" {
+				nbr = 4
+			}
+			for i := 0; i < nbr; i++ {
+				cse := core.MkCase("C04", "busyreport", i, seed, map[string]int{"c": pick(r, 2, 4, 8), "backlog": 20000000})
+				cse.Solo = true
+				cse.TimeoutMS = 120000
+				cs = append(cs, cse)
+			}
 			nh := 4
 			if tier == "thorough" {
 				nh = 24
@@ -154,7 +165,7 @@ func init() {
 			}
 			return cs
 		},
-		Kinds:  map[string]core.RunFunc{"run": c04Run, "rounds": c04Rounds, "hotrounds": c04HotRounds},
+		Kinds:  map[string]core.RunFunc{"run": c04Run, "rounds": c04Rounds, "hotrounds": c04HotRounds, "busyreport": c04BusyReport},
 		Floors: map[string]int64{"rendezvous_opened": 12, "highwater_reached_c": 8, "rounds_all_workers_busy": 1500},
 	})
 }
@@ -294,6 +305,94 @@ func c04Run(c *core.Case, o *core.Outcome) {
 	}
 	o.MaxObs("max:high_water", k.HighWater.Load())
 	o.Sample = map[string]any{"case": p.Desc, "started": k.Started.Load(), "high_water": k.HighWater.Load(), "handles": k.Handles(), "ticks_offering_c": ticksOffering.Load()}
+}
+
+// c04BusyReport: c held workers, a tick leaving a backlog of 2e7 pending requests, then a tick of exactly c whose
+// goroutine has to report the backlog as dropped (seconds of work). The held bodies are released as soon as that
+// report has begun: the c idle workers must pick up the c new requests while the report is still going on.
+func c04BusyReport(c *core.Case, o *core.Outcome) {
+	var pp map[string]int
+	c.Params(&pp)
+	cc, backlog := pp["c"], pp["backlog"]
+	gate := make(chan struct{})
+	var phase atomic.Int64
+	var held, arrivals, firstArrival atomic.Int64
+	scenario := func(t *f1testing.T) f1testing.RunFn {
+		return func(t *f1testing.T) {
+			if phase.Load() == 0 {
+				held.Add(1)
+				<-gate
+				return
+			}
+			firstArrival.CompareAndSwap(0, time.Now().UnixNano())
+			arrivals.Add(1)
+		}
+	}
+	env := engine.NewPoolEnv("busyreport", scenario, 0, nil)
+	ctx, cancel := context.WithCancel(context.Background())
+	defer cancel()
+	pool := env.Manager.NewTriggerPool(cc)
+	wctx := pool.Start(ctx)
+	pool.Trigger(wctx, backlog+cc)
+	if !waitUntil(10*time.Second, func() bool { return held.Load() == int64(cc) }) {
+		close(gate)
+		o.Inconc("the %d workers did not all start", cc)
+		return
+	}
+	tdone := make(chan struct{})
+	var t0, t1 time.Time
+	go func() { t0 = time.Now(); pool.Trigger(wctx, cc); t1 = time.Now(); close(tdone) }()
+	waitUntil(10*time.Second, func() bool { return env.Stats.Total().DroppedIterationCount > 1000 })
+	phase.Store(1)
+	close(gate)
+	arrivedDuringReport := int64(-1)
+	deadline := time.Now().Add(60 * time.Second)
+	for time.Now().Before(deadline) {
+		select {
+		case <-tdone:
+			arrivedDuringReport = arrivals.Load()
+		default:
+		}
+		if arrivedDuringReport >= 0 || arrivals.Load() >= int64(cc) {
+			break
+		}
+		time.Sleep(200 * time.Microsecond)
+	}
+	reporting := false
+	select {
+	case <-tdone:
+	default:
+		reporting = true
+	}
+	got := arrivals.Load()
+	<-tdone
+	cancel()
+	select {
+	case <-env.Manager.WaitForCompletion():
+	case <-time.After(30 * time.Second):
+	}
+	desc := fmt.Sprintf("c=%d backlog=%d report took %v", cc, backlog, t1.Sub(t0))
+	o.Events = int64(backlog) + got
+	if t1.Sub(t0) < 1500*time.Millisecond {
+		o.Inconc("reporting the backlog took only %v: too short to tell (%s)", t1.Sub(t0), desc)
+		return
+	}
+	waitUntil(5*time.Second, func() bool { return firstArrival.Load() != 0 })
+	if fa := firstArrival.Load(); fa == 0 || fa >= t1.UnixNano() {
+		arrivedDuringReport = 0
+		reporting = false
+	} else {
+		arrivedDuringReport = 1
+	}
+	if !reporting && arrivedDuringReport == 0 {
+		o.Violate("busyreport:c="+fmt.Sprint(cc), "a tick of %d requests was published and all %d workers were idle, but none of them started an iteration during the %v the ticking goroutine spent reporting %d discarded requests: pending requests and idle workers, nothing executing (%s)", cc, cc, t1.Sub(t0), backlog, desc)
+		return
+	}
+	if reporting && got >= int64(cc) {
+		o.AddObs("rounds_all_workers_busy", 1)
+		o.Sig("busyreport:c=%d", cc)
+	}
+	o.Sample = map[string]any{"case": desc, "arrived_while_reporting": got, "report_still_running": reporting}
 }
 
 func tickClass(t, c int) string {
